@@ -1,27 +1,26 @@
-//! Embedded-mode driver: runs the generated `Dfir`s tick by tick, feeding inputs according to a
-//! tick partition chosen by the harness, and judges the outputs.
+//! Embedded-mode (production code generation) monitors for C30, C31, C34 and C39: every flow of the
+//! `hv_tick_flows` corpus is compiled by `generate_embedded` (build.rs) and driven tick by tick; the harness
+//! chooses each tick's batch (pushes a chunk, then `run_tick_sync`), so it knows exactly what every tick saw.
 pub mod emb {
     include!(concat!(env!("OUT_DIR"), "/all.rs"));
 }
-
-use hv_common::Feed;
+pub mod drive;
+mod p30;
+mod p31;
+mod p34;
+mod p39;
 
 fn main() {
     let args = vcommon::Args::parse();
-    if args.prop == "NONE" {
-        return;
-    }
-    // Example (replace): drive `double` with the partition [1,2] | [] | [3].
-    let feed = Feed::new();
-    let mut out = vec![];
-    {
-        let mut outputs = emb::double::double::EmbeddedOutputs { output: |x: i64| out.push(x) };
-        let mut flow = emb::double::double(feed.clone(), &mut outputs);
-        for chunk in [vec![1, 2], vec![], vec![3]] {
-            feed.push_all(chunk);
-            flow.run_tick_sync();
+    match args.prop.as_str() {
+        "NONE" => {}
+        "C30" => p30::run(&args),
+        "C31" => p31::run(&args),
+        "C34" => p34::run(&args),
+        "C39" => p39::run(&args),
+        other => {
+            eprintln!("hv_tick_emb does not serve property {other}");
+            std::process::exit(3);
         }
     }
-    eprintln!("not implemented yet; example output {out:?}");
-    std::process::exit(3);
 }
